@@ -332,7 +332,14 @@ impl VM {
                     let left = self.pop();
                     let result = match left.tag() {
                         Type::Float => unsafe { Object::float(-left.as_f64_unchecked(), gc) },
-                        Type::Int => Object::int(-left.as_int()),
+                        Type::Int => match left.as_int().checked_neg() {
+                            Some(value) => Object::try_int(value)?,
+                            None => {
+                                return Err(Error::TypeError(
+                                    "de uitkomst valt buiten het bereik van een integer".to_string(),
+                                ))
+                            }
+                        },
                         _ => {
                             return Err(Error::TypeError(format!(
                                 "kan objecten met type {} niet omdraaien",
